@@ -27,6 +27,8 @@ func c20(c *Ctx) {
 	c20R6(c, "R6")
 	c11R4(c, "R7/C11.R4")
 	c10R3(c, "R8/C10.R3")
+	// the burned index must stay a gap: it is what forces followers onto InstallSnapshot
+	sStoreWriters(c, "R9/S-WRITERS")
 }
 
 func c20R1345(c *Ctx) {
